@@ -43,7 +43,7 @@ func C13(c *vk.Ctx) {
 		{Mode: "crl_only", Sig: "verify", Strict: false, Fetch: "actively", Disk: false, TrustA: false, Conf: "none", Ocsp: "noaia"},
 		{Mode: "crl_only", Sig: "verify", Strict: true, Fetch: "background", Disk: true, TrustA: true, Conf: "url", Ocsp: "noaia"},
 	}
-	hubCampaign(c, cfgs, c.Pick(700, 8000), c.Pick(1, 6), 60, predC13)
+	hubCampaign(c, cfgs, c.Pick(700, 8000), allDownEdges, 60, predC13)
 	c13Concurrent(c)
 	c.Set("spec", "EntryLocks.tla (NoDeadlock as an invariant over the wait-for relation, Lockset) + CrlRepo.tla (lock discipline) + Revocation.tla histories")
 	c.Set("rule", "sequential part: every edge of the Revocation graph of two configurations is executed with a 30 s watchdog per call (the longest legitimate retry loop is 5 s); concurrent part: see c13Concurrent")
